@@ -417,3 +417,31 @@ class Pristine:
         except Exception:
             pass
 
+
+
+class CpuBudgetExceeded(BaseException):
+    """Raised by CpuWatchdog inside the monitored call (BaseException: no `except Exception` of the library swallows it)."""
+
+
+class CpuWatchdog:
+    """Bounds the CPU time (user time of this process, ITIMER_VIRTUAL - independent of machine load) of one call.
+    The signal is delivered between bytecodes and inside the regular-expression engine, which polls for signals."""
+
+    def __init__(self):
+        import signal
+        self.signal = signal
+        self.fired = False
+        signal.signal(signal.SIGVTALRM, self._fire)
+
+    def _fire(self, signum, frame):
+        self.fired = True
+        raise CpuBudgetExceeded()
+
+    def start(self, seconds):
+        self.fired = False
+        self.signal.setitimer(self.signal.ITIMER_VIRTUAL, seconds)
+
+    def stop(self):
+        """Seconds of the budget that were left."""
+        left, _ = self.signal.setitimer(self.signal.ITIMER_VIRTUAL, 0)
+        return left
